@@ -76,7 +76,10 @@ def tt_scalar(E, s):
     E.eq('value', dense(E, z.cores), ref.reshape(list(xd.shape)))
     E.true('shape', list(z.N) == list(s['N']))
     E.true('boundary_ranks', z.R[0] == 1 and z.R[-1] == 1)
-    if s['skind'] != 'complex':
+    if s['skind'] == 'complex' and not s['dtype'].startswith('complex'):
+        # a complex scalar on a real operand: the value clause forces a complex result for a != 0; the property fixes no dtype for a == 0
+        E.true('dtype_consistent', len({E.dtname(c) for c in z.cores}) == 1)
+    else:
         E.true('dtype', all(E.dtname(c) == s['dtype'] for c in z.cores))
     # operand must be untouched (also claimed under C06)
     E.eq('operand_intact', dense(E, x.cores), xd)
